@@ -76,6 +76,8 @@ func runBounded(prop, tmplPath, workDir string) boundedResult {
 	root := repoRoot()
 	os.MkdirAll(workDir, 0o755)
 	testFile := filepath.Join(workDir, base+"_test.go")
+	// a replay template (bounded search written for counterexample replay) can serve as a stand-in unchanged
+	src = []byte(strings.Replace(string(src), "/*INPUTS*/", "`{}`", 1))
 	os.WriteFile(testFile, src, 0o644)
 	ov := map[string]map[string]string{"Replace": {filepath.Join(root, res.Pkg, "zz_govc_bounded_test.go"): testFile}}
 	ovData, _ := json.Marshal(ov)
@@ -84,7 +86,7 @@ func runBounded(prop, tmplPath, workDir string) boundedResult {
 	ctx, cancel := context.WithTimeout(context.Background(), 900*time.Second)
 	defer cancel()
 	t0 := time.Now()
-	cmd := exec.CommandContext(ctx, "go", "test", "-tags", "verif", "-overlay", ovFile, "-v", "-vet=off", "-count=1", "-timeout", "600s", "-run", "^TestGovcBounded$", "./"+res.Pkg+"/")
+	cmd := exec.CommandContext(ctx, "go", "test", "-tags", "verif", "-overlay", ovFile, "-v", "-vet=off", "-count=1", "-timeout", "600s", "-run", "^(TestGovcBounded|TestGovcReplay)$", "./"+res.Pkg+"/")
 	cmd.Dir = root
 	cmd.Env = append(os.Environ(), "GOFLAGS=-mod=mod", "GOPROXY=off", "GOSUMDB=off", "GOTOOLCHAIN=local")
 	b, _ := cmd.CombinedOutput()
@@ -114,6 +116,20 @@ func runBounded(prop, tmplPath, workDir string) boundedResult {
 		if strings.HasPrefix(l, "BOUNDED-TOOL-ERROR") {
 			res.ToolError = l
 		}
+	}
+	if !sawSummary && res.ToolError == "" && strings.Contains(res.Output, "REPRODUCED") {
+		// replay-template protocol: the first failing case ends the search
+		i := strings.Index(res.Output, "REPRODUCED")
+		j := strings.Index(res.Output[i:], "\n")
+		if j < 0 {
+			j = len(res.Output) - i
+		}
+		res.Violations = append(res.Violations, boundedViolation{Name: "bounded." + base + "#search", Detail: res.Output[i : i+j]})
+		sawSummary = true
+	}
+	if !sawSummary && res.ToolError == "" && regexp.MustCompile(`(?m)^ok\s`).MatchString(res.Output) {
+		res.Summary["result"] = "the whole bound was explored without a failing case"
+		sawSummary = true
 	}
 	if !sawSummary && res.ToolError == "" {
 		// build failure, harness panic, timeout: the harness could not explore anything
